@@ -75,7 +75,105 @@ def run_seed(args) -> dict:
         shutil.rmtree(tmp, ignore_errors=True)
 
 
+def write_readme(results) -> None:
+    lines = ["# Seeded changes and the checks that report them", "",
+             "Each directory holds one change to 8451/labrea that breaks the named property while the pinned test suite",
+             "still passes (`patch.diff`), a demonstration that fails with the change and passes without it (`demo.py`) and",
+             "`meta.json` (what it needs to manifest, how it was confirmed). All were written by independent sub-agents that saw",
+             "only the property text. Regenerate this table with `python -m sa.seeded --all-props --write-readme`; it is produced by",
+             "applying each patch to a scratch copy of /repo's current `labrea/` and running the static rules on it.", "",
+             "| seeded change | property | what it does | reported by (check of its own property) | other checks that also fire |",
+             "|---|---|---|---|---|"]
+    for r in results:
+        prop = r["meta"].get("property")
+        if r["status"] != "ran":
+            lines.append(f"| {r['name']} | {prop} | {r['meta'].get('summary', '')[:160]} | ({r['status']}) | |")
+            continue
+        own = r["fired"].get(prop, [])
+        rules = sorted({x.split()[0] for x in own})
+        first = own[0].split(" @ ")[0] if own else "**missed**"
+        others = ", ".join(sorted(p for p in r["fired"] if p != prop))
+        summ = r["meta"].get("summary", "").replace("|", "/").replace("\n", " ")[:200]
+        lines.append(f"| {r['name']} | {prop} | {summ} | {', '.join(rules)}: `{first[:110]}` | {others} |")
+    caught = sum(1 for r in results if r["status"] == "ran" and r["fired"].get(r["meta"].get("property")))
+    lines += ["", f"{caught}/{len(results)} seeded changes are reported by the check of their own property."]
+    open(os.path.join(SEEDED, "README.md"), "w").write("\n".join(lines) + "\n")
+
+
+def run_refactor(name_dir) -> dict:
+    """A behaviour-preserving refactoring: no property may fire, no analysis error."""
+    name, base = name_dir
+    d = os.path.join(base, name)
+    tmp = tempfile.mkdtemp(prefix="sa-refac-", dir=os.environ.get("TMPDIR", "/tmp"))
+    try:
+        shutil.copytree(os.path.join(REPO, "labrea"), os.path.join(tmp, "labrea"), ignore=shutil.ignore_patterns("__pycache__"))
+        r = subprocess.run(["patch", "-p1", "-s", "-i", os.path.join(d, "patch.diff")], cwd=tmp, capture_output=True, text=True)
+        if r.returncode != 0:
+            return {"name": name, "status": "patch-failed", "why": (r.stdout + r.stderr)[-300:]}
+        from .facts import Run
+        from .model import AnalysisError, Repo
+        from .registry import PROPS, RULES
+        from .report import load_known, match_known
+        run = Run(Repo(tmp), "quick")
+        known = load_known()
+        fired: Dict[str, List[str]] = {}
+        errors: List[str] = []
+        for prop in sorted(PROPS):
+            spec = PROPS[prop]
+            for rid in spec["rules"]:
+                try:
+                    if rid not in run._rule_cache:
+                        run._rule_cache[rid] = RULES[rid](run)
+                    rr = run._rule_cache[rid]
+                except AnalysisError as e:
+                    errors.append(f"{rid}: {e}")
+                    run._rule_cache[rid] = None
+                    continue
+                except Exception as e:
+                    errors.append(f"{rid}: internal {e!r}")
+                    run._rule_cache[rid] = None
+                    continue
+                if rr is None:
+                    continue
+                flt = spec.get("filters", {}).get(rid)
+                for o in rr.obligations:
+                    if o.ok or (flt and not any(s in o.construct for s in flt)):
+                        continue
+                    if match_known(prop, o, known) is not None:
+                        continue
+                    fired.setdefault(o.rule + " " + o.construct, []).append(prop)
+        return {"name": name, "status": "ran", "fired": fired, "errors": sorted(set(errors))}
+    finally:
+        shutil.rmtree(tmp, ignore_errors=True)
+
+
+def main_refactors(base: str, names: List[str]) -> int:
+    names = names or sorted(d for d in os.listdir(base) if os.path.exists(os.path.join(base, d, "patch.diff")))
+    with ProcessPoolExecutor(max_workers=16) as ex:
+        results = list(ex.map(run_refactor, [(n, base) for n in names]))
+    bad = 0
+    for r in results:
+        if r["status"] != "ran":
+            print(f"{r['name']:24} {r['status']} {r.get('why', '')[:150]}")
+            continue
+        if r["fired"] or r["errors"]:
+            bad += 1
+            print(f"{r['name']:24} FALSE ALARM")
+            for k, ps in r["fired"].items():
+                print(f"      {k[:170]}  [{','.join(sorted(set(ps)))}]")
+            for e in r["errors"]:
+                print(f"      ANALYSIS-ERROR {e[:200]}")
+        else:
+            print(f"{r['name']:24} silent")
+    print(f"{len(results) - bad}/{len(results)} behaviour-preserving refactorings leave every check silent")
+    return 0
+
+
 def main(argv: List[str]) -> int:
+    if "--refactors" in argv:
+        i = argv.index("--refactors")
+        base = argv[i + 1]
+        return main_refactors(base, [a for a in argv[i + 2:] if not a.startswith("--")])
     all_props = "--all-props" in argv
     names = [a for a in argv if not a.startswith("--")] or list_seeded()
     with ProcessPoolExecutor(max_workers=16) as ex:
@@ -93,6 +191,8 @@ def main(argv: List[str]) -> int:
         print(f"{r['name']:28} {prop} {state:7} {own[0][:170] if own else ''}" + (f"  [also: {','.join(others)}]" if others else "")
               + (f"  [errors: {r['errors'][0][:100]}]" if r["errors"] else ""))
     print(f"{caught}/{len(results)} seeded changes reported by the check of their own property")
+    if "--write-readme" in argv:
+        write_readme(results)
     return 0
 
 
